@@ -2358,6 +2358,12 @@ class MovieExtendsHeaderBox(FullBox):
 
 @fourcc('saiz')
 class SampleAuxiliaryInformationSizesBox(FullBox):
+    def __init__(self, **kwargs):
+        # the JSON form of the box gives aux_info_type as a hex string
+        if isinstance(kwargs.get('aux_info_type'), str):
+            kwargs['aux_info_type'] = int(kwargs['aux_info_type'], 16)
+        super().__init__(**kwargs)
+
     @classmethod
     def parse(clz, src, parent, **kwargs):
         rv = FullBox.parse(src, parent, **kwargs)
@@ -2586,6 +2592,12 @@ class ProtectionSchemeTypeBox(FullBox):
 @fourcc('saio')
 class SampleAuxiliaryInformationOffsetsBox(FullBox):
     DEPENDS_UPON = {'moof', 'senc', 'tfhd'}
+
+    def __init__(self, **kwargs):
+        # the JSON form of the box gives aux_info_type as a hex string
+        if isinstance(kwargs.get('aux_info_type'), str):
+            kwargs['aux_info_type'] = int(kwargs['aux_info_type'], 16)
+        super().__init__(**kwargs)
 
     @classmethod
     def parse(clz, src, parent, **kwargs):
